@@ -45,6 +45,7 @@ typedef struct {
     uint64_t put_len, put_hash;   /* bytes handed to REQUEST_FILE_DATA for a PUT body (htp_file_t source HTP_FILE_PUT) */
     uint64_t raw_hash[4];     /* running hash of the concatenated raw header/trailer data (req hdr, req trl, res hdr, res trl) */
     uint64_t raw_len[4];
+    uint64_t view[2]; int view_set[2];   /* what the transaction reported about each side when that side's COMPLETE callback ran */
 } txrec;
 
 typedef struct {
@@ -70,6 +71,7 @@ typedef struct hx_runctx {
     int susp[2];
     int resumed_empty;        /* the response side was resumed once although no request data was available */
     int zero_rounds;
+    int transient;            /* offer each piece from a heap copy that is released as soon as the call returns */
     hx_buf calls;
     uint64_t sig;
     int tunnel_seen;
@@ -199,8 +201,58 @@ static void dump_body(runctx *x, hx_buf *b, txrec *t, int side) {
     hb_puts(b, "}");
 }
 
+/* ---- what a transaction reports about one side (C02): taken when the side's COMPLETE callback runs and again when the transaction
+ * is dumped - the application analyses a request at REQUEST_COMPLETE (QUICK_START 2.3), so every field must already be there */
+static uint64_t sig_bstr(const bstr *s, uint64_t h) {
+    if (s == NULL) return hx_hash("\1", 1, h);
+    h = hx_hash(bstr_ptr(s), bstr_len(s), h);
+    return hx_hash("\2", 1, h);
+}
+static uint64_t sig_headers(const htp_table_t *t, uint64_t h) {
+    if (t == NULL) return hx_hash("\3", 1, h);
+    for (size_t i = 0, n = htp_table_size(t); i < n; i++) {
+        htp_header_t *hd = htp_table_get_index(t, i, NULL);
+        if (hd == NULL) continue;
+        h = sig_bstr(hd->name, h); h = sig_bstr(hd->value, h);
+    }
+    return h;
+}
+static uint64_t side_view(const htp_tx_t *tx, int side) {
+    uint64_t h = 1469598103934665603ULL;
+    if (side == 0) {
+        h = sig_bstr(tx->request_method, h); h = sig_bstr(tx->request_uri, h); h = sig_bstr(tx->request_protocol, h);
+        h = sig_headers(tx->request_headers, h);
+        h = sig_bstr(tx->request_hostname, h);
+        int pn = tx->request_port_number; h = hx_hash(&pn, sizeof pn, h);
+        h = sig_bstr(tx->request_auth_username, h); h = sig_bstr(tx->request_auth_password, h);
+        if (tx->request_cookies != NULL)
+            for (size_t i = 0, n = htp_table_size(tx->request_cookies); i < n; i++) {
+                bstr *k = NULL; bstr *v = htp_table_get_index(tx->request_cookies, i, &k);
+                h = sig_bstr(k, h); h = sig_bstr(v, h);
+            }
+        if (tx->request_params != NULL)
+            for (size_t i = 0, n = htp_table_size(tx->request_params); i < n; i++) {
+                htp_param_t *pm = htp_table_get_index(tx->request_params, i, NULL);
+                if (pm == NULL) continue;
+                int src = (int) pm->source; h = hx_hash(&src, sizeof src, h);
+                h = sig_bstr(pm->name, h); h = sig_bstr(pm->value, h);
+            }
+    } else {
+        h = sig_bstr(tx->response_protocol, h); h = sig_bstr(tx->response_status, h); h = sig_bstr(tx->response_message, h);
+        int sn = tx->response_status_number; h = hx_hash(&sn, sizeof sn, h);
+        h = sig_headers(tx->response_headers, h);
+    }
+    return h;
+}
+
 static void dump_tx(runctx *x, txrec *t) {
     htp_tx_t *tx = t->ptr;
+    for (int sd = 0; sd < 2; sd++) {
+        CHECK(x);
+        if (t->view_set[sd] && side_view(tx, sd) != t->view[sd])
+            viol(x, "C02", sd ? "response_fields_after_response_complete" : "request_fields_after_request_complete",
+                 "tx %d: the %s fields the transaction reports differ from those it reported when %s_COMPLETE ran", t->ord, sd ? "response" : "request", sd ? "RESPONSE" : "REQUEST");
+    }
     hx_buf *b = &t->dump;
     hb_reset(b);
     hb_printf(b, "{\"ord\":%d,\"index\":%zu", t->ord, tx->index);
@@ -521,14 +573,14 @@ static void end_of_side(runctx *x, txrec *t, int side) {
 static int cb_request_complete(htp_tx_t *tx) { COST_PAUSE;
     runctx *x = cur; if (!x) return HTP_OK;
     txrec *t = on_tx_event(x, HK_REQUEST_COMPLETE, tx, 0, RK_COMPLETE, 1);
-    if (t) { t->complete_cb[0]++; end_of_side(x, t, 0); }
+    if (t) { t->complete_cb[0]++; end_of_side(x, t, 0); t->view[0] = side_view(tx, 0); t->view_set[0] = 1; }
     return scripted_rc(x, HK_REQUEST_COMPLETE);
 }
 
 static int cb_response_complete(htp_tx_t *tx) { COST_PAUSE;
     runctx *x = cur; if (!x) return HTP_OK;
     txrec *t = on_tx_event(x, HK_RESPONSE_COMPLETE, tx, 1, RK_COMPLETE, 1);
-    if (t) { t->complete_cb[1]++; end_of_side(x, t, 1); }
+    if (t) { t->complete_cb[1]++; end_of_side(x, t, 1); t->view[1] = side_view(tx, 1); t->view_set[1] = 1; }
     return scripted_rc(x, HK_RESPONSE_COMPLETE);
 }
 
@@ -891,8 +943,15 @@ static int feed(runctx *x, int d) {
         hx_cost_buffered += p->in_buf_size + p->out_buf_size + (p->in_header ? bstr_len(p->in_header) : 0) + (p->out_header ? bstr_len(p->out_header) : 0);
     }
     int rc;
+    void *tmp = NULL;
+    if (x->transient && data != NULL && len > 0) {
+        tmp = malloc(len);
+        if (tmp != NULL) { memcpy(tmp, data, len); data = tmp; }
+    }
     YIELD();
     COST_API(rc = d == 0 ? htp_connp_req_data(p, &tv, data, len) : htp_connp_res_data(p, &tv, data, len));
+    /* a pointer the parser kept into the piece is dangling from here on (sanitizer builds report its next use) */
+    if (tmp != NULL) { memset(tmp, 0xDD, len); free(tmp); }
     if (hx_after_hook) hx_after_hook();
     size_t consumed = d == 0 ? htp_connp_req_data_consumed(p) : htp_connp_res_data_consumed(p);
     x->cur_dir = 0;
@@ -1024,6 +1083,8 @@ int hx_run(const hx_case *c, hx_result *r) {
     x->c = c;
     x->r = r;
     x->dump_flags = c->cfg[CF_DUMP];
+    /* half of the cases (by parity of the case id's bits): the application's receive buffer does not outlive the call */
+    x->transient = __builtin_popcount(c->id) & 1;
     r->st.runs++;
     cur = x;
     int64_t base_blocks = hxa_live_blocks;
@@ -1053,7 +1114,7 @@ int hx_run(const hx_case *c, hx_result *r) {
         htp_connp_open(x->connp, "192.168.2.3", 12345, "192.168.2.2", 80, &tv);
     }
 
-    for (uint32_t i = 0; i < c->nops && !x->closed; i++) {
+    for (uint32_t i = 0; i < c->nops && !(x->closed & 1); i++) {
         const hx_op *op = &c->ops[i];
         switch (op->kind) {
             case OP_REQ: q_push(x, 0, op->data, op->len, 0); drain(x); break;
